@@ -68,6 +68,15 @@ func next(name, kind string) value {
 	return v
 }
 
+// StrFromCodes builds a string from Unicode code points.
+func StrFromCodes(codes ...int) string {
+	var sb strings.Builder
+	for _, c := range codes {
+		sb.WriteRune(rune(c))
+	}
+	return sb.String()
+}
+
 func NondetString(name string) string             { return next(name, "string").Str }
 func NondetInt(name string, lo, hi int) int       { return int(next(name, "int").Int) }
 func NondetInt32(name string, lo, hi int32) int32 { return int32(next(name, "int").Int) }
@@ -222,6 +231,16 @@ func Thaw() {
 }
 
 // StrPlain: non-empty, lower-case ASCII letters only.
+// StrOver: every character of s belongs to alphabet.
+func StrOver(s, alphabet string) bool {
+	for _, c := range s {
+		if !strings.ContainsRune(alphabet, c) {
+			return false
+		}
+	}
+	return true
+}
+
 func StrPlain(s string) bool {
 	if s == "" {
 		return false
